@@ -14,6 +14,7 @@ import AgVerif.Proof.InsnEdAll
 import AgVerif.Proof.InsnDecValid
 import AgVerif.Proof.PyInsn
 import AgVerif.Proof.PyInsnRaw
+import AgVerif.Proof.PyInsnObs
 import AgVerif.Proof.InsnLits
 namespace AgVerif.C01
 open AgVerif.Insn AgVerif.Gen AgVerif.Spec
@@ -280,6 +281,13 @@ theorem source_constructors_agree (bs : List Nat) (hb : ∀ b ∈ bs, b < 256) :
     `PyInsn.source_get_raw_agree` in Proof/PyInsnRaw.lean (a 36-fold conjunction, re-exported verbatim). -/
 theorem source_get_raw_agree : type_of% PyInsn.source_get_raw_agree :=
   PyInsn.source_get_raw_agree
+
+/-- Tie by translation, observer side: the 27 one-line observers `get_ref_off` / `get_ref_kind` / `get_literals` of the
+    format classes, translated from the Python source on every run (AgVerif.Gen.PyInsnObs), equal the model's
+    `refOff` / `refKind` / `literals` on every object the constructor builds.  Statement: the one of
+    `PyInsn.source_observers_agree` in Proof/PyInsnObs.lean, re-exported verbatim. -/
+theorem source_observers_agree : type_of% PyInsn.source_observers_agree :=
+  PyInsn.source_observers_agree
 
 /-! ### non-vacuity -/
 
